@@ -166,6 +166,14 @@ def forRange {σ ρ : Type} (lo n : Nat) (s : σ) (f : Nat → σ → Loop σ ρ
     | .ret r => .ret r
     | .cont s' => forRange (lo + 1) n s' f
 
+/-- `while cond: body` over the loop-carried variables `s`, run for at most `fuel` iterations.  The translator only emits it
+    for loops whose variant it recognises (e.g. `while v != 0: …; v >>= c` with `v ≥ 0`: fuel = `bitLen v`); that the fuel
+    is sufficient is not assumed anywhere: it follows from the theorems that equate the generated function with its model -/
+def whileFuel {σ : Type} (fuel : Nat) (cond : σ → Bool) (step : σ → σ) (s : σ) : σ :=
+  match fuel with
+  | 0 => s
+  | f + 1 => if cond s then whileFuel f cond step (step s) else s
+
 /-- `seq[i]` for an index the loop guarantees to be in range -/
 def seqAt (l : List Int) (i : Nat) : Int := l.getD i 0
 
